@@ -260,3 +260,77 @@ Qed.
 
 Lemma ws_only_cache_file : forall f f', ws_only f f' -> cache_file f' = cache_file f.
 Proof. intros f f' H. unfold cache_file. rewrite (H CACHEP under_WS_cachep). reflexivity. Qed.
+
+(* ------------------------------------------------------------------ the listing does not see the cache file *)
+Lemma flat_map_child_remove : forall w p f,
+  (forall n, child_name w (p, n) = []) ->
+  flat_map (child_name w) (remove p f) = flat_map (child_name w) f.
+Proof.
+  intros w p f H. unfold remove. induction f as [|[q n] f IH]; simpl; auto.
+  destruct (path_eqb p q) eqn:E; simpl.
+  - apply path_eqb_eq in E. subst q. rewrite H. simpl. exact IH.
+  - rewrite IH. reflexivity.
+Qed.
+
+Lemma children_remove : forall w p f, (forall n, child_name w (p, n) = []) -> children (remove p f) w = children f w.
+Proof. intros. unfold children. rewrite flat_map_child_remove; auto. Qed.
+
+Lemma children_write_file : forall w f p c f',
+  (forall n, child_name w (p, n) = []) -> write_file f p c = FOk f' -> children f' w = children f w.
+Proof.
+  intros w f p c f' Hn H. unfold write_file in H.
+  destruct (get f p) as [[c0|]|]; try discriminate;
+    destruct (get f (parent p)) as [[c1|]|]; try discriminate; inversion H; subst;
+    unfold children; simpl; rewrite Hn; simpl; rewrite flat_map_child_remove; auto.
+Qed.
+
+Lemma children_rename_file : forall w f a b c f',
+  (forall n, child_name w (a, n) = []) -> (forall n, child_name w (b, n) = []) ->
+  get f a = Some (File c) -> a <> b -> rename f a b = FOk f' -> children f' w = children f w.
+Proof.
+  intros w f a b c f' Ha Hb Hg Hab H. unfold rename in H. rewrite Hg in H.
+  destruct (get f (parent b)) as [[c1|]|]; try discriminate.
+  apply path_eqb_neq in Hab. rewrite Hab in H.
+  assert (Hres : f' = (b, File c) :: remove a (remove b f)).
+  { destruct (get f b) as [[c2|]|]; try discriminate; inversion H; reflexivity. }
+  subst f'. unfold children. simpl. rewrite Hb. simpl. rewrite !flat_map_child_remove; auto.
+Qed.
+
+Lemma child_cachep : forall n, child_name [WS] (CACHEP, n) = [].
+Proof. reflexivity. Qed.
+Lemma child_cachetmp : forall n, child_name [WS] (CACHETMP, n) = [].
+Proof. reflexivity. Qed.
+
+Lemma listing_eq : forall f f', get f' [WS] = get f [WS] -> children f' [WS] = children f [WS] ->
+  job_dirs f' WSP = job_dirs f WSP.
+Proof. intros f f' H1 H2. unfold job_dirs, listdir, WSP. rewrite H1, H2. reflexivity. Qed.
+
+Lemma get_without_cache : forall f q, q <> CACHEP -> get (without_cache f) q = get f q.
+Proof.
+  intros f q Hq. unfold without_cache. destruct q as [|x q]; [reflexivity|]. simpl.
+  rewrite lookup_remove. apply not_eq_sym in Hq. apply path_eqb_neq in Hq. rewrite Hq. reflexivity.
+Qed.
+
+Lemma cache_file_without : forall f, cache_file (without_cache f) = None.
+Proof.
+  intro f. unfold cache_file, without_cache. simpl. rewrite lookup_remove, path_eqb_refl. reflexivity.
+Qed.
+
+Lemma listing_without_cache : forall f, job_dirs (without_cache f) WSP = job_dirs f WSP.
+Proof.
+  intro f. apply listing_eq.
+  - apply get_without_cache. discriminate.
+  - apply children_remove. apply child_cachep.
+Qed.
+
+Lemma listed_exists : forall f i, In i (job_dirs f WSP) -> exists_ f (WSP ++ [i]) = true /\ (32 <= length i)%nat.
+Proof.
+  intros f i H. unfold job_dirs, listdir in H. destruct (get f WSP) as [[c|]|]; try contradiction.
+  apply filter_In in H. destruct H as [Hc Hm]. split.
+  - apply In_children in Hc. apply In_keys_lookup in Hc. destruct Hc as [n Hn].
+    unfold exists_. unfold WSP in *. simpl app in *. rewrite get_cons_path, Hn. reflexivity.
+  - unfold id_match in Hm. apply andb_true_iff in Hm. destruct Hm as [Hm _]. apply Nat.leb_le in Hm. exact Hm.
+Qed.
+
+Lemma norm_objb : forall a b, norm a = norm b -> is_objb a = is_objb b.
+Proof. intros a b H. destruct a, b; simpl in *; try discriminate; reflexivity. Qed.
